@@ -625,6 +625,13 @@ impl<'a> Interp<'a> {
         if let Some(r) = o.get("raw") {
             w.insert("raw".into(), r.clone());
         }
+        // options that are set first and then set again to the values above (the builder's last call counts)
+        if let Some(f) = o.get("first") {
+            if f.is_object() {
+                let f2 = self.build_opts(f);
+                w.insert("first".into(), f2);
+            }
+        }
         Value::Object(w)
     }
 
